@@ -2,7 +2,7 @@
    Property theorems only: statement, [exact] of the lemma that proves it, Print Assumptions.
    G_* are the functions GENERATED from internal/encoding/*.go by tools/gosyn on every run. *)
 From Coq Require Import List ZArith.
-From Verif Require Import GoSem GenEnc Bytes Varint VarintDec Float BytesEsc BytesEscProofs.
+From Verif Require Import GoSem GenEnc Bytes Varint VarintDec Float BytesEsc BytesEscProofs Composite.
 Import ListNotations.
 Open Scope Z_scope.
 
@@ -81,6 +81,13 @@ Print Assumptions C17_bytes_order_desc.
 Theorem C17_bytes_prefix_free : forall a b p, bytes a -> bytes b -> body_t a = body_t b ++ p -> a = b.
 Proof. exact body_prefix_free. Qed.
 Print Assumptions C17_bytes_prefix_free.
+
+(* composite keys "/" f1 "/" f2 ... over integer and string components (ascending): byte order of the keys is the
+   lexicographic order of the tuples, for tuples of any length; the bytes after the key (document id) break ties *)
+Theorem C17_composite_key_order : forall a b r s, same_shape a b -> Forall kdom a -> Forall kdom b ->
+  bcmp (key_of a ++ r) (key_of b ++ s) = match lexcmp a b with Eq => bcmp r s | c => c end.
+Proof. exact composite_key_order. Qed.
+Print Assumptions C17_composite_key_order.
 
 (* non-vacuity: the premises hold for extreme values and the statements compute on them *)
 Example C17_nonvacuous :
